@@ -26,7 +26,18 @@ impl ConfigFile {
 
         manifest_dir_path.pop();
 
-        let Some((before, i18n_cfg)) = cfg_file_str.split_once("[package.metadata.leptos-i18n]")
+        // the table header stands at the start of a line, the same text inside a comment is not the table.
+        const HEADER: &str = "[package.metadata.leptos-i18n]";
+        let Some((before, i18n_cfg)) = cfg_file_str
+            .match_indices(HEADER)
+            .map(|(i, _)| cfg_file_str.split_at(i))
+            .find(|(before, _)| {
+                before
+                    .rsplit('\n')
+                    .next()
+                    .is_some_and(|line| line.trim().is_empty())
+            })
+            .map(|(before, rest)| (before, &rest[HEADER.len()..]))
         else {
             return Err(Error::ConfigNotPresent.into());
         };
